@@ -87,8 +87,8 @@ def candidates(sc, optional_keys=(), frozen_keys=()):
                 yield _set(sc, path, node - 1 if node > 0 else node + 1)
         elif isinstance(node, float) and node != 0.0:
             yield _set(sc, path, 0.0)
-        elif isinstance(node, str) and len(node) > 1 and path and path[-1] not in ('op', 'kind', 'type', 'name', 'when',
-                                                                                  'mode', 'step', 'format', 'clause', 'errno', 'at', 'agg', 'key'):
+        elif isinstance(node, str) and len(node) > 1 and 'rows' in path:
+            # only data cells are shortened; names, kinds and options are left alone
             yield _set(sc, path, node[:1])
 
 
